@@ -979,3 +979,784 @@ Lemma no_trace_file_partial rt d segs2 p :
   Forall2 (seg_prune rt) (doc_segments d) segs2 ->
   gen_partial d rt = Ok p -> gen_partial (with_segments d segs2) rt = Ok p.
 Proof. intro H. exact (gen_partial_prune rt d segs2 H p). Qed.
+
+(* ====================================================================== *)
+(* Part 4: the converse - an included object / archive entry leaves a trace *)
+(* ====================================================================== *)
+
+From Slinky Require Import Spec.C01 Proofs.C01 Proofs.C18 Proofs.C12.
+
+(* the statement written for entry [f] (an object or an archive member) and section [k], under the
+   directory [b], [p] being the entry's escaped path *)
+Definition trace_stmt (seg : segment) (f : file_info) (b p k : string) : stmt :=
+  SInput (keeps (fi_keep f) k) (display (push b p)) (member_of f) k (wildcard_sections seg).
+
+(* it occurs among the statements [s] (inside output sections too) and its path has been recorded *)
+Definition traced (seg : segment) (f : file_info) (b p k : string) (s : list stmt) (ws' : wstate) : Prop :=
+  In (trace_stmt seg f b p k) (flat_map deep_inputs s) /\ In (components (push b p)) (ws_paths ws').
+
+(* the directory under which the entries of a segment are placed *)
+Definition seg_base (rt : runtime) (cfg : wcfg) (seg : segment) (base_path b : string) : Prop :=
+  exists b0, escape_path rt base_path = Ok b0 /\
+             (if reference_partial cfg then b = b0
+              else exists d, escape_path rt (sg_dir seg) = Ok d /\ b = push b0 d).
+
+Definition file_traced (rt : runtime) (seg : segment) (f : file_info) (b k : string)
+           (s : list stmt) (ws' : wstate) : Prop :=
+  exists p, escape_path rt (fi_path f) = Ok p /\ traced seg f b p k s ws'.
+
+Definition grows (ws : wstate) (s : list stmt) (ws' : wstate) : Prop := incl (ws_paths ws) (ws_paths ws').
+
+Lemma grows_refl ws s : grows ws s ws.
+Proof. apply incl_refl. Qed.
+
+Lemma grows_trans ws s1 ws1 s2 ws2 : grows ws s1 ws1 -> grows ws1 s2 ws2 -> grows ws (s1 ++ s2) ws2.
+Proof. unfold grows. intros. eapply incl_tran; eassumption. Qed.
+
+Lemma add_path_grows p ws : incl (ws_paths ws) (ws_paths (add_path p ws)).
+Proof.
+  unfold add_path. destruct (comps_mem (components p) (ws_paths ws)); [apply incl_refl|].
+  cbn [ws_paths]. apply incl_appl, incl_refl.
+Qed.
+
+Lemma add_path_in p ws : In (components p) (ws_paths (add_path p ws)).
+Proof.
+  unfold add_path. destruct (comps_mem (components p) (ws_paths ws)) eqn:E.
+  - unfold comps_mem in E. apply existsb_exists in E. destruct E as [c [Hc E]].
+    apply comps_eqb_spec in E. rewrite E. exact Hc.
+  - cbn [ws_paths]. apply in_or_app. right. left. reflexivity.
+Qed.
+
+Lemma grows_emitter sty wild offs g :
+  emitter sty wild offs g -> forall ws s ws', g ws = Ok (s, ws') -> grows ws s ws'.
+Proof.
+  apply (emitter_rel sty wild offs grows).
+  - intro ws. apply grows_refl.
+  - apply grows_trans.
+  - intros. apply add_path_grows.
+  - intros. apply grows_refl.
+  - intros. apply grows_refl.
+Qed.
+
+Lemma grows_emit_sff rt sty cfg seg sections f n stack section base ws s ws' :
+  emit_sff rt sty cfg seg sections f n stack section base ws = Ok (s, ws') -> grows ws s ws'.
+Proof. apply (grows_emitter sty (wildcard_sections seg) (offs_of rt f)). apply emit_sff_emitter. Qed.
+
+Lemma grows_emit_section rt sty cfg seg sections base section ws s ws' :
+  emit_section rt sty cfg seg sections base section ws = Ok (s, ws') -> grows ws s ws'.
+Proof.
+  apply (grows_emitter sty (wildcard_sections seg) (offs_of_segment rt seg)). apply emit_section_emitter.
+Qed.
+
+(* a property of the output that one element of a fold establishes and later output preserves *)
+Section FoldSome.
+  Context {A : Type}.
+  Variable f0 : A -> wstate -> res out.
+  Variable Q : list stmt -> wstate -> Prop.
+  Hypothesis Q_left : forall s ws s2 ws', Q s ws -> incl (ws_paths ws) (ws_paths ws') -> Q (s ++ s2) ws'.
+  Hypothesis Q_right : forall s1 s ws, Q s ws -> Q (s1 ++ s) ws.
+  Hypothesis f0_grows : forall y ws s ws', f0 y ws = Ok (s, ws') -> grows ws s ws'.
+
+  Lemma fold_out_some l x :
+    In x l -> (forall ws s ws', f0 x ws = Ok (s, ws') -> Q s ws') ->
+    forall ws s ws', fold_out f0 l ws = Ok (s, ws') -> Q s ws'.
+  Proof.
+    intros Hin Hx. induction l as [|y r IH]; intros ws s ws' H; [destruct Hin|].
+    apply fold_out_cons in H. destruct H as [s1 [ws1 [s2 [E1 [E2 E]]]]]. subst s.
+    destruct Hin as [Hy|Hin].
+    - subst y. apply (Q_left s1 ws1); [eapply Hx; eassumption|].
+      change (grows ws1 s2 ws').
+      apply (fold_out_rel grows f0 r); [intro; apply grows_refl | apply grows_trans | | exact E2].
+      intros z w t w' _. apply f0_grows.
+    - apply Q_right. eapply IH; eassumption.
+  Qed.
+End FoldSome.
+
+Lemma deep_in_app T a b :
+  In T (flat_map deep_inputs (a ++ b)) <-> In T (flat_map deep_inputs a) \/ In T (flat_map deep_inputs b).
+Proof. rewrite flat_map_app. apply in_app_iff. Qed.
+
+Lemma traced_left seg f b p k s ws s2 ws' :
+  traced seg f b p k s ws -> incl (ws_paths ws) (ws_paths ws') -> traced seg f b p k (s ++ s2) ws'.
+Proof. intros [H1 H2] Hi. split; [apply deep_in_app; left; exact H1 | apply Hi; exact H2]. Qed.
+
+Lemma traced_right seg f b p k s1 s ws : traced seg f b p k s ws -> traced seg f b p k (s1 ++ s) ws.
+Proof. intros [H1 H2]. split; [apply deep_in_app; right; exact H1 | exact H2]. Qed.
+
+Lemma file_traced_left rt seg f b k s ws s2 ws' :
+  file_traced rt seg f b k s ws -> incl (ws_paths ws) (ws_paths ws') -> file_traced rt seg f b k (s ++ s2) ws'.
+Proof. intros [p [Hp H]] Hi. exists p. split; [exact Hp | eapply traced_left; eassumption]. Qed.
+
+Lemma file_traced_right rt seg f b k s1 s ws :
+  file_traced rt seg f b k s ws -> file_traced rt seg f b k (s1 ++ s) ws.
+Proof. intros [p [Hp H]]. exists p. split; [exact Hp | apply traced_right; exact H]. Qed.
+
+(* ---------- one included object / archive entry ---------- *)
+
+Definition names_file (f : file_info) : Prop := fi_kind f = KObject \/ fi_kind f = KArchive.
+
+Lemma emit_file_of_leaf rt sty cfg seg sections f k base ws s ws' :
+  should_emit rt (fi_conds f) = true -> names_file f ->
+  emit_file_of rt sty cfg seg sections f k base ws = Ok (s, ws') ->
+  exists p, escape_path rt (fi_path f) = Ok p /\ s = [trace_stmt seg f base p k] /\
+            ws' = add_path (push base p) ws.
+Proof.
+  intros He Hk. unfold emit_file_of, emit_file_gen, trace_stmt, member_of. rewrite He. cbn [negb].
+  destruct Hk as [Hk|Hk]; rewrite Hk; destruct (escape_path rt (fi_path f)) as [p|e]; cbn [bind];
+    try discriminate; intro H; apply ok_inj in H; inversion H; subst; exists p; auto.
+Qed.
+
+Lemma grows_emit_file_of rt sty cfg seg sections f k base ws s ws' :
+  emit_file_of rt sty cfg seg sections f k base ws = Ok (s, ws') -> grows ws s ws'.
+Proof.
+  apply (grows_emitter sty (wildcard_sections seg) (offs_of rt f)). apply emit_file_of_emitter.
+  apply Forall_forall. intros c _ n stack section b. apply emit_sff_emitter.
+Qed.
+
+(* ---------- what one call of emit_section_for_file contains ---------- *)
+
+(* the sub-group expansions that follow section [k] of entry [f] *)
+Definition after_file rt sty cfg seg sections (f : file_info) (n : nat) (stack : list string)
+           (k base : string) (ws : wstate) : res out :=
+  if reference_partial cfg then Ok ([], ws) else
+  match lookup k (subgroups_for seg f) with
+  | Some others =>
+      fold_out (fun other ws => emit_sff rt sty cfg seg sections f n stack other base ws) others ws
+  | None => Ok ([], ws)
+  end.
+
+Lemma grows_after_file rt sty cfg seg sections f n stack k base ws s ws' :
+  after_file rt sty cfg seg sections f n stack k base ws = Ok (s, ws') -> grows ws s ws'.
+Proof.
+  unfold after_file. destruct (reference_partial cfg).
+  - intro H. apply ok_inj in H. inversion H; subst. apply grows_refl.
+  - destruct (lookup k (subgroups_for seg f)) as [others|].
+    + apply (fold_out_rel grows); [intro; apply grows_refl | apply grows_trans |].
+      intros z w0 t0 w0' _. apply grows_emit_sff.
+    + intro H. apply ok_inj in H. inversion H; subst. apply grows_refl.
+Qed.
+
+Lemma emit_sff_unfold rt sty cfg seg sections f n stack section base ws s ws' :
+  emit_sff rt sty cfg seg sections f n stack section base ws = Ok (s, ws') ->
+  exists n', n = S n' /\
+    fold_out (fun k ws =>
+                do o1 <- emit_file_of rt sty cfg seg sections f k base ws;
+                do o2 <- after_file rt sty cfg seg sections f n' (section :: stack) k base (snd o1);
+                Ok ((fst o1 ++ fst o2)%list, snd o2))
+             (sections_here f section sections) ws = Ok (s, ws').
+Proof.
+  destruct n as [|n]; [rewrite emit_sff_O; discriminate|]. rewrite emit_sff_S.
+  destruct (mem_str section stack); [discriminate|]. intro H. exists n. split; [reflexivity | exact H].
+Qed.
+
+Lemma step_inv rt sty cfg seg sections f n stack k base ws s ws' :
+  (do o1 <- emit_file_of rt sty cfg seg sections f k base ws;
+   do o2 <- after_file rt sty cfg seg sections f n stack k base (snd o1);
+   Ok ((fst o1 ++ fst o2)%list, snd o2)) = Ok (s, ws') ->
+  exists s1 w1 s2, emit_file_of rt sty cfg seg sections f k base ws = Ok (s1, w1) /\
+                   after_file rt sty cfg seg sections f n stack k base w1 = Ok (s2, ws') /\ s = s1 ++ s2.
+Proof.
+  intro H. apply bind_ok_out in H. destruct H as [s1 [w1 [E1 H]]]. cbn [fst snd] in H.
+  apply bind_ok_out in H. destruct H as [s2 [w2 [E2 H]]]. cbn [fst snd] in H.
+  apply ok_inj in H. inversion H; subst. exists s1, w1, s2. auto.
+Qed.
+
+Lemma grows_step rt sty cfg seg sections f n stack k base ws s ws' :
+  (do o1 <- emit_file_of rt sty cfg seg sections f k base ws;
+   do o2 <- after_file rt sty cfg seg sections f n stack k base (snd o1);
+   Ok ((fst o1 ++ fst o2)%list, snd o2)) = Ok (s, ws') -> grows ws s ws'.
+Proof.
+  intro H. apply step_inv in H. destruct H as [s1 [w1 [s2 [E1 [E2 E]]]]]. subst s.
+  eapply grows_trans; [eapply grows_emit_file_of; eassumption | eapply grows_after_file; eassumption].
+Qed.
+
+(* a section [m] that entry [f] reaches from [a] (Spec/C01.v: through its section_order, then through
+   the sub-groups) is written: whatever emit_file yields for [m] is part of what is returned for [a] *)
+Section Reached.
+  Variables (rt : runtime) (sty : style) (cfg : wcfg) (seg : segment) (sections : list string).
+  Variable Q : list stmt -> wstate -> Prop.
+  Hypothesis Q_left : forall s ws s2 ws', Q s ws -> incl (ws_paths ws) (ws_paths ws') -> Q (s ++ s2) ws'.
+  Hypothesis Q_right : forall s1 s ws, Q s ws -> Q (s1 ++ s) ws.
+
+  Lemma emit_sff_reaches f a m :
+    Reaches cfg seg sections f a m ->
+    forall base,
+    (forall ws s ws', emit_file_of rt sty cfg seg sections f m base ws = Ok (s, ws') -> Q s ws') ->
+    forall n stack ws s ws',
+      emit_sff rt sty cfg seg sections f n stack a base ws = Ok (s, ws') -> Q s ws'.
+  Proof.
+    induction 1 as [a k Hk | a k s0 m Hk Hs0 Hr IH]; intros base Hm n stack ws s ws' H;
+      apply emit_sff_unfold in H; destruct H as [n' [En H]]; subst n; revert H;
+      apply (fold_out_some _ Q Q_left Q_right) with (x := k);
+      try (intros y w t w'; apply grows_step); try exact Hk.
+    - intros w t w' H. apply step_inv in H. destruct H as [s1 [w1 [s2 [E1 [E2 E]]]]]. subst t.
+      apply (Q_left s1 w1); [eapply Hm; eassumption | eapply grows_after_file; eassumption].
+    - intros w t w' H. apply step_inv in H. destruct H as [s1 [w1 [s2 [E1 [E2 E]]]]]. subst t.
+      apply Q_right. revert E2. unfold after_file.
+      unfold entry_members, members in Hs0.
+      destruct (fi_kind f) eqn:Ek; try (destruct Hs0; fail);
+        (destruct (reference_partial cfg); [destruct Hs0|]);
+        (rewrite (subgroups_for_leaf seg f) by (rewrite Ek; discriminate));
+        (destruct (lookup k (sections_subgroups seg)) as [others|]; [|destruct Hs0]);
+        apply (fold_out_some _ Q Q_left Q_right) with (x := s0);
+        try (intros y w0 t0 w0'; apply grows_emit_sff); try exact Hs0;
+        intros w0 t0 w0'; apply IH; exact Hm.
+  Qed.
+End Reached.
+
+(* wherever the entry is expanded (any fuel, any stack): for every section [k] it reaches from
+   [section] its statement for [k] is there and its path is recorded *)
+Lemma emit_sff_traced rt sty cfg seg sections f n stack section base k ws s ws' :
+  should_emit rt (fi_conds f) = true -> names_file f ->
+  Reaches cfg seg sections f section k ->
+  emit_sff rt sty cfg seg sections f n stack section base ws = Ok (s, ws') ->
+  file_traced rt seg f base k s ws'.
+Proof.
+  intros He Hk Hr.
+  apply (emit_sff_reaches rt sty cfg seg sections (file_traced rt seg f base k)
+           (file_traced_left rt seg f base k) (file_traced_right rt seg f base k) f section k Hr).
+  intros w t w' H. destruct (emit_file_of_leaf _ _ _ _ _ _ _ _ _ _ _ He Hk H) as [p [Hp [Es Ew]]]. subst t w'.
+  exists p. split; [exact Hp|]. split.
+  - cbn [flat_map]. unfold trace_stmt at 2. cbn [deep_inputs app]. left. reflexivity.
+  - apply add_path_in.
+Qed.
+
+(* entries inside groups: every leaf below [f0] ([leaves]: the included object / archive entries with
+   the directory accumulated from the included groups above them), every section reached through the
+   chain of entries from [f0] down to the leaf *)
+Lemma emit_file_of_group rt sty cfg seg sections f k base ws :
+  should_emit rt (fi_conds f) = true -> fi_kind f = KGroup ->
+  emit_file_of rt sty cfg seg sections f k base ws =
+  (do d <- escape_path rt (fi_dir f);
+   fold_out (fun c ws => emit_sff rt sty cfg seg sections c (chain_fuel seg) [] k (push base d) ws)
+            (fi_files f) ws).
+Proof. intros He Hk. unfold emit_file_of, emit_file_gen, group_fold. rewrite He, Hk. reflexivity. Qed.
+
+Lemma emit_sff_leaf_traced rt sty cfg seg sections f0 :
+  forall n stack a base ws s ws',
+    emit_sff rt sty cfg seg sections f0 n stack a base ws = Ok (s, ws') ->
+    forall c bc chain k,
+      In (c, bc, chain) (leaves rt base f0) -> reach_via cfg seg sections chain a k ->
+      file_traced rt seg c bc k s ws'.
+Proof.
+  induction f0 as [p0 k0 sf pa sec lon so files d c0 kp IHfiles] using file_info_ind'.
+  set (f := FileInfo p0 k0 sf pa sec lon so files d c0 kp) in *.
+  intros n stack a base ws s ws' H c bc chain k Hleaf Hreach.
+  destruct (should_emit rt (fi_conds f)) eqn:He; [|rewrite (leaves_excluded rt base f He) in Hleaf; destruct Hleaf].
+  destruct (fi_kind f) eqn:Ek.
+  - rewrite (leaves_one rt base f He (or_introl Ek)) in Hleaf. destruct Hleaf as [E|[]]. inversion E; subst c bc chain.
+    destruct Hreach as [m [Hr Em]]. cbn [reach_via] in Em. subst m.
+    eapply emit_sff_traced; try eassumption. left; exact Ek.
+  - rewrite (leaves_one rt base f He (or_intror Ek)) in Hleaf. destruct Hleaf as [E|[]]. inversion E; subst c bc chain.
+    destruct Hreach as [m [Hr Em]]. cbn [reach_via] in Em. subst m.
+    eapply emit_sff_traced; try eassumption. right; exact Ek.
+  - rewrite (leaves_other rt base f He (or_introl Ek)) in Hleaf. destruct Hleaf.
+  - rewrite (leaves_other rt base f He (or_intror Ek)) in Hleaf. destruct Hleaf.
+  - destruct (escape_path rt (fi_dir f)) as [dd|e] eqn:Hd;
+      [|rewrite (leaves_group_err rt base f e He Ek Hd) in Hleaf; destruct Hleaf].
+    rewrite (leaves_group_ok rt base f dd He Ek Hd) in Hleaf. apply in_map_iff in Hleaf.
+    destruct Hleaf as [[[c' bc'] chain'] [E Hin]]. cbn [fst snd] in E. inversion E; subst c' bc' chain. clear E.
+    apply in_flat_map in Hin. destruct Hin as [child [Hchild Hin]].
+    destruct Hreach as [m [Hr Hreach]].
+    revert H.
+    apply (emit_sff_reaches rt sty cfg seg sections (file_traced rt seg c bc k)
+             (file_traced_left rt seg c bc k) (file_traced_right rt seg c bc k) f a m Hr).
+    intros w t w'. rewrite (emit_file_of_group _ _ _ _ _ _ _ _ _ He Ek), Hd. cbn [bind].
+    apply (fold_out_some _ (file_traced rt seg c bc k)) with (x := child).
+    + apply file_traced_left.
+    + apply file_traced_right.
+    + intros y w0 t0 w0'. apply grows_emit_sff.
+    + exact Hchild.
+    + intros w0 t0 w0' H0. rewrite Forall_forall in IHfiles.
+      eapply (IHfiles child Hchild); eassumption.
+Qed.
+
+(* ---------- from the group of one section up to whole scripts ---------- *)
+
+Lemma emit_section_base rt sty cfg seg sections bp section ws s ws' :
+  emit_section rt sty cfg seg sections bp section ws = Ok (s, ws') ->
+  exists b, seg_base rt cfg seg bp b /\
+            fold_out (fun f ws => emit_sff rt sty cfg seg sections f (chain_fuel seg) [] section b ws)
+                     (sg_files seg) ws = Ok (s, ws').
+Proof.
+  unfold emit_section, seg_base. destruct (escape_path rt bp) as [b0|e]; cbn [bind]; [|discriminate].
+  destruct (reference_partial cfg); cbn [bind].
+  - intro H. exists b0. split; [exists b0; auto | exact H].
+  - destruct (escape_path rt (sg_dir seg)) as [d|e]; cbn [bind]; [|discriminate].
+    intro H. exists (push b0 d). split; [exists b0; split; [reflexivity | exists d; auto] | exact H].
+Qed.
+
+Lemma seg_base_fun rt cfg seg bp b1 b2 : seg_base rt cfg seg bp b1 -> seg_base rt cfg seg bp b2 -> b1 = b2.
+Proof.
+  intros [x [Hx H1]] [y [Hy H2]]. rewrite Hx in Hy. apply ok_inj in Hy. subst y.
+  destruct (reference_partial cfg); [congruence|].
+  destruct H1 as [d1 [Hd1 E1]], H2 as [d2 [Hd2 E2]]. rewrite Hd1 in Hd2. apply ok_inj in Hd2. congruence.
+Qed.
+
+(* a property [Q] of (statements, recorded paths) that the group of [section] establishes, that later
+   output preserves and that holds of a block when it holds of its body *)
+Section Up.
+  Variables (rt : runtime) (st : settings) (cfg : wcfg) (seg : segment).
+  Variable Q : list stmt -> wstate -> Prop.
+  Hypothesis Q_left : forall s ws s2 ws', Q s ws -> incl (ws_paths ws) (ws_paths ws') -> Q (s ++ s2) ws'.
+  Hypothesis Q_right : forall s1 s ws, Q s ws -> Q (s1 ++ s) ws.
+  Hypothesis Q_outsec : forall name addr at_ noload sub pre body ws,
+      Q body ws -> Q [SOutSec name addr at_ noload sub (pre ++ body)] ws.
+  Hypothesis Q_sections : forall body ws, Q body ws -> Q [SSections body] ws.
+  Variable section : string.
+
+  Definition section_has (sections : list string) : Prop :=
+    In section sections /\
+    forall ws s ws',
+      emit_section rt (linker_symbols_style st) cfg seg sections (base_path st) section ws = Ok (s, ws') ->
+      Q s ws'.
+
+  Lemma grows_part_groups sections rest : forall ws s ws',
+    part_groups rt st cfg seg sections rest ws = Ok (s, ws') -> grows ws s ws'.
+  Proof.
+    induction rest as [|sec rest IH]; intros ws s ws' H.
+    - apply ok_inj in H. inversion H; subst. apply grows_refl.
+    - apply part_groups_cons in H. destruct H as [s1 [ws1 [s2 [E1 [E2 E]]]]].
+      change (grows ws (s1 ++ s2) ws').
+      eapply grows_trans; [eapply grows_emit_section; eassumption | eapply IH; eassumption].
+  Qed.
+
+  Lemma part_groups_some sections rest :
+    (forall ws s ws',
+        emit_section rt (linker_symbols_style st) cfg seg sections (base_path st) section ws = Ok (s, ws') ->
+        Q s ws') ->
+    In section rest ->
+    forall ws s ws', part_groups rt st cfg seg sections rest ws = Ok (s, ws') -> Q s ws'.
+  Proof.
+    intro Hq. induction rest as [|sec rest IH]; intros Hs ws s ws' H; [destruct Hs|].
+    apply part_groups_cons in H. destruct H as [s1 [ws1 [s2 [E1 [E2 E]]]]]. subst s.
+    apply Q_right. destruct Hs as [Hs|Hs].
+    - subst sec. apply (Q_left s1 ws1); [eapply Hq; eassumption | eapply grows_part_groups; eassumption].
+    - apply Q_right. apply Q_right. apply Q_right. eapply IH; eassumption.
+  Qed.
+
+  Lemma grows_write_segment sections noload ws s ws' :
+    write_segment rt st cfg seg sections noload ws = Ok (s, ws') -> grows ws s ws'.
+  Proof.
+    intro H. apply write_segment_inv in H. destruct H as [body [E _]].
+    change (grows ws body ws'). eapply grows_part_groups; eassumption.
+  Qed.
+
+  Lemma write_segment_some sections noload ws s ws' :
+    section_has sections -> write_segment rt st cfg seg sections noload ws = Ok (s, ws') -> Q s ws'.
+  Proof.
+    intros [Hs Hq] H. apply write_segment_inv in H. destruct H as [body [E Es]]. subst s.
+    apply Q_right. apply (Q_left _ ws'); [|apply incl_refl].
+    unfold outsec_of. apply Q_outsec. eapply part_groups_some; eassumption.
+  Qed.
+
+  Lemma grows_add_segment classes ws s ws' :
+    add_segment rt st cfg classes seg ws = Ok (s, ws') -> grows ws s ws'.
+  Proof.
+    intro H. apply add_segment_inv in H.
+    destruct H as [[_ [_ E]] | [_ [cls [ws1 [s1 [ws2 [s2 [Ec [E1 [E2 E]]]]]]]]]]; [subst; apply grows_refl|].
+    assert (Ep : ws_paths ws1 = ws_paths ws).
+    { apply class_part_inv in Ec. destruct Ec as [[_ Ew] | [cn [c [_ [_ [_ [_ Ew]]]]]]]; subst; reflexivity. }
+    apply grows_write_segment in E1. apply grows_write_segment in E2. unfold grows in *. rewrite <- Ep.
+    eapply incl_tran; eassumption.
+  Qed.
+
+  Lemma add_segment_some classes ws s ws' :
+    should_emit rt (sg_conds seg) = true ->
+    section_has (alloc_sections seg) \/ section_has (noload_sections seg) ->
+    add_segment rt st cfg classes seg ws = Ok (s, ws') -> Q s ws'.
+  Proof.
+    intros Hseg Hs H. apply add_segment_inv in H.
+    destruct H as [[Hc _] | [_ [cls [ws1 [s1 [ws2 [s2 [Ec [E1 [E2 E]]]]]]]]]]; [congruence|]. subst s.
+    apply Q_right. apply Q_right. destruct Hs as [Hs|Hs].
+    - apply (Q_left s1 ws2); [eapply write_segment_some; eassumption | eapply grows_write_segment; eassumption].
+    - apply Q_right. apply Q_right. apply (Q_left s2 ws'); [|apply incl_refl].
+      eapply write_segment_some; eassumption.
+  Qed.
+
+  (* the single-segment writer *)
+  Lemma grows_single_groups sections noload rest : forall ws s ws',
+    single_groups rt st cfg seg sections noload rest ws = Ok (s, ws') -> grows ws s ws'.
+  Proof.
+    induction rest as [|sec rest IH]; intros ws s ws' H.
+    - apply ok_inj in H. inversion H; subst. apply grows_refl.
+    - apply single_groups_cons in H. destruct H as [s1 [ws1 [s2 [E1 [E2 E]]]]].
+      change (grows ws (s1 ++ s2) ws').
+      eapply grows_trans; [eapply grows_emit_section; eassumption | eapply IH; eassumption].
+  Qed.
+
+  Lemma single_groups_some sections noload rest :
+    (forall ws s ws',
+        emit_section rt (linker_symbols_style st) cfg seg sections (base_path st) section ws = Ok (s, ws') ->
+        Q s ws') ->
+    In section rest ->
+    forall ws s ws', single_groups rt st cfg seg sections noload rest ws = Ok (s, ws') -> Q s ws'.
+  Proof.
+    intro Hq. induction rest as [|sec rest IH]; intros Hs ws s ws' H; [destruct Hs|].
+    apply single_groups_cons in H. destruct H as [s1 [ws1 [s2 [E1 [E2 E]]]]]. subst s.
+    apply Q_right. destruct Hs as [Hs|Hs].
+    - subst sec. apply (Q_left _ ws1); [|eapply grows_single_groups; eassumption].
+      apply Q_outsec. eapply Hq; eassumption.
+    - apply Q_right. apply Q_right. apply Q_right. eapply IH; eassumption.
+  Qed.
+
+  Lemma grows_write_single_segment sections noload ws s ws' :
+    write_single_segment rt st cfg seg sections noload ws = Ok (s, ws') -> grows ws s ws'.
+  Proof.
+    intro H. apply write_single_segment_inv in H. destruct H as [body [E _]].
+    change (grows ws body ws'). eapply grows_single_groups; eassumption.
+  Qed.
+
+  Lemma write_single_segment_some sections noload ws s ws' :
+    section_has sections -> write_single_segment rt st cfg seg sections noload ws = Ok (s, ws') -> Q s ws'.
+  Proof.
+    intros [Hs Hq] H. apply write_single_segment_inv in H. destruct H as [body [E Es]]. subst s.
+    apply Q_right. apply (Q_left _ ws'); [|apply incl_refl]. eapply single_groups_some; eassumption.
+  Qed.
+
+  Lemma add_single_segment_some classes ws s ws' :
+    section_has (alloc_sections seg) \/ section_has (noload_sections seg) ->
+    add_single_segment rt st cfg classes seg ws = Ok (s, ws') -> Q s ws'.
+  Proof.
+    intros Hs H. apply add_single_segment_inv in H.
+    destruct H as [s1 [ws1 [s2 [E1 [E2 E]]]]]. subst s. apply Q_sections. apply Q_right.
+    destruct Hs as [Hs|Hs].
+    - apply (Q_left s1 ws1); [eapply write_single_segment_some; eassumption
+                             | eapply grows_write_single_segment; eassumption].
+    - apply Q_right. apply Q_right. apply (Q_left s2 ws'); [|apply incl_refl].
+      eapply write_single_segment_some; eassumption.
+  Qed.
+End Up.
+
+(* whole documents *)
+Section UpDoc.
+  Variables (rt : runtime) (d : document) (seg : segment).
+  Variable Q : list stmt -> wstate -> Prop.
+  Hypothesis Q_left : forall s ws s2 ws', Q s ws -> incl (ws_paths ws) (ws_paths ws') -> Q (s ++ s2) ws'.
+  Hypothesis Q_right : forall s1 s ws, Q s ws -> Q (s1 ++ s) ws.
+  Hypothesis Q_outsec : forall name addr at_ noload sub pre body ws,
+      Q body ws -> Q [SOutSec name addr at_ noload sub (pre ++ body)] ws.
+  Hypothesis Q_sections : forall body ws, Q body ws -> Q [SSections body] ws.
+  Variable section : string.
+
+  (* the ordinary script.  In single_segment_mode the conditions of the only segment are not consulted
+     (add_all_segments calls add_single_segment directly) *)
+  Lemma gen_normal_some w :
+    gen_normal d rt = Ok w -> In seg (doc_segments d) ->
+    (single_segment_mode (doc_settings d) = true \/ should_emit rt (sg_conds seg) = true) ->
+    section_has rt (doc_settings d) cfg_normal seg Q section (alloc_sections seg) \/
+    section_has rt (doc_settings d) cfg_normal seg Q section (noload_sections seg) ->
+    exists ws', wo_paths w = ws_paths ws' /\ Q (wo_script w) ws'.
+  Proof.
+    intros H Hseg Hc Hs. apply gen_normal_inv in H. destruct H as [s [ws' [E H]]]. subst w.
+    exists ws'. split; [reflexivity|]. cbn [wo_script]. apply Q_right. apply (Q_left s ws'); [|apply incl_refl].
+    apply add_all_segments_inv in E. destruct E as [[Hm [sg [Esegs E]]] | [Hm [body [E Es]]]].
+    - rewrite Esegs in Hseg. destruct Hseg as [Hseg|[]]. subst sg.
+      eapply add_single_segment_some; eassumption.
+    - destruct Hc as [Hc|Hc]; [congruence|]. subst s. apply Q_sections.
+      apply Q_right. apply (Q_left body ws'); [|apply incl_refl].
+      revert E. apply (fold_out_some _ Q Q_left Q_right) with (x := seg).
+      + intros y w t w'. apply grows_add_segment.
+      + exact Hseg.
+      + intros w t w'. apply (add_segment_some rt (doc_settings d) cfg_normal seg Q Q_left Q_right Q_outsec section);
+          assumption.
+  Qed.
+
+  (* a partial build: the per-segment script of an included segment *)
+  Lemma partial_segments_some folder segs : forall ws subs s ws' subs',
+    section_has rt (doc_settings d) cfg_sub_partial seg Q section (alloc_sections seg) \/
+    section_has rt (doc_settings d) cfg_sub_partial seg Q section (noload_sections seg) ->
+    partial_segments d rt folder segs (ws, subs) = Ok (s, (ws', subs')) ->
+    incl subs subs' /\
+    (In seg segs -> should_emit rt (sg_conds seg) = true ->
+     exists w wsub, In (sg_name seg, w) subs' /\ wo_paths w = ws_paths wsub /\ Q (wo_script w) wsub).
+  Proof.
+    intros ws subs s ws' subs' Hs. revert ws subs s ws' subs'.
+    induction segs as [|sg r IH]; intros ws subs s ws' subs' H.
+    - apply ok_inj in H. inversion H; subst. split; [apply incl_refl | intros []].
+    - apply partial_segments_cons in H. destruct H as [s1 [[ws1 subs1] [s2 [E1 [E2 E]]]]]. subst s.
+      apply IH in E2. destruct E2 as [Hi2 Hr]. apply partial_segment_inv in E1.
+      destruct E1 as [[Hc [E [Ew Es]]] | [Hc [sub [wsub [Ea [Eb Es]]]]]]; subst.
+      + split; [exact Hi2|]. intros [Hsg|Hin] Hc'; [subst sg; congruence | apply Hr; assumption].
+      + split; [eapply incl_tran; [apply incl_appl, incl_refl | exact Hi2]|].
+        intros [Hsg|Hin] Hc'; [|apply Hr; assumption]. subst sg.
+        eexists. exists wsub. split; [apply Hi2; apply in_or_app; right; left; reflexivity|].
+        cbn [wo_script wo_paths]. split; [reflexivity|]. apply Q_right.
+        eapply add_single_segment_some; eassumption.
+  Qed.
+
+  Lemma gen_partial_some po :
+    gen_partial d rt = Ok po -> In seg (doc_segments d) -> should_emit rt (sg_conds seg) = true ->
+    section_has rt (doc_settings d) cfg_sub_partial seg Q section (alloc_sections seg) \/
+    section_has rt (doc_settings d) cfg_sub_partial seg Q section (noload_sections seg) ->
+    exists w wsub, In (sg_name seg, w) (po_subs po) /\ wo_paths w = ws_paths wsub /\ Q (wo_script w) wsub.
+  Proof.
+    intros H Hseg Hc Hs. apply gen_partial_inv in H.
+    destruct H as [folder [body [ws [subs [Ef [E H]]]]]]. subst po. cbn [po_subs].
+    destruct (partial_segments_some _ _ _ _ _ _ _ Hs E) as [_ G]. apply G; assumption.
+  Qed.
+End UpDoc.
+
+(* ---------- the property: a leaf of the segment's file list is traced ---------- *)
+
+Lemma file_traced_outsec rt seg f b k name addr at_ noload sub pre body ws :
+  file_traced rt seg f b k body ws -> file_traced rt seg f b k [SOutSec name addr at_ noload sub (pre ++ body)] ws.
+Proof.
+  intros [p [Hp [H1 H2]]]. exists p. split; [exact Hp|]. split; [|exact H2].
+  cbn [flat_map deep_inputs]. rewrite app_nil_r. apply deep_in_app. right. exact H1.
+Qed.
+
+Lemma file_traced_sections rt seg f b k body ws :
+  file_traced rt seg f b k body ws -> file_traced rt seg f b k [SSections body] ws.
+Proof.
+  intros [p [Hp [H1 H2]]]. exists p. split; [exact Hp|]. split; [|exact H2].
+  cbn [flat_map deep_inputs]. rewrite app_nil_r. exact H1.
+Qed.
+
+(* [sections] is only the sort key of [here]: what is reached does not depend on it *)
+Lemma reaches_sections cfg seg s1 s2 f a m : Reaches cfg seg s1 f a m -> Reaches cfg seg s2 f a m.
+Proof.
+  induction 1 as [a k Hk | a k s0 m Hk Hs0 Hr IH].
+  - apply Reach_here. apply in_here. apply in_here in Hk. exact Hk.
+  - eapply Reach_member; [|exact Hs0|exact IH]. apply in_here. apply in_here in Hk. exact Hk.
+Qed.
+
+Lemma reach_via_sections cfg seg s1 s2 chain : forall a b,
+  reach_via cfg seg s1 chain a b -> reach_via cfg seg s2 chain a b.
+Proof.
+  induction chain as [|f r IH]; intros a b H; [exact H|]. destruct H as [m [Hr H]].
+  exists m. split; [eapply reaches_sections; exact Hr | apply IH; exact H].
+Qed.
+
+(* the group of [section] contains the statements of every leaf for every section reached *)
+Lemma emit_section_leaf_traced rt sty cfg seg sections bp section b c0 c bc chain k ws s ws' :
+  seg_base rt cfg seg bp b -> In c0 (sg_files seg) -> In (c, bc, chain) (leaves rt b c0) ->
+  reach_via cfg seg sections chain section k ->
+  emit_section rt sty cfg seg sections bp section ws = Ok (s, ws') ->
+  file_traced rt seg c bc k s ws'.
+Proof.
+  intros Hb Hc0 Hleaf Hreach H. apply emit_section_base in H. destruct H as [b' [Hb' H]].
+  rewrite (seg_base_fun _ _ _ _ _ _ Hb' Hb) in H. clear b' Hb'. revert H.
+  apply (fold_out_some _ (file_traced rt seg c bc k)) with (x := c0).
+  - apply file_traced_left.
+  - apply file_traced_right.
+  - intros y w t w'. apply grows_emit_sff.
+  - exact Hc0.
+  - intros w t w' H. eapply emit_sff_leaf_traced; eassumption.
+Qed.
+
+Lemma leaf_section_has rt st cfg seg b c0 c bc chain k section sections :
+  seg_base rt cfg seg (base_path st) b -> In c0 (sg_files seg) -> In (c, bc, chain) (leaves rt b c0) ->
+  In section (alloc_sections seg ++ noload_sections seg) ->
+  reach_via cfg seg sections chain section k ->
+  section_has rt st cfg seg (file_traced rt seg c bc k) section (alloc_sections seg) \/
+  section_has rt st cfg seg (file_traced rt seg c bc k) section (noload_sections seg).
+Proof.
+  intros Hb Hc0 Hleaf Hs Hreach. apply in_app_or in Hs.
+  destruct Hs as [Hs|Hs]; [left|right]; (split; [exact Hs|]); intros ws s ws';
+    apply (emit_section_leaf_traced _ _ _ _ _ _ _ b c0 c bc chain k); try assumption;
+    eapply reach_via_sections; exact Hreach.
+Qed.
+
+(* the converse of no-trace / of C01_nothing_unlisted for an included segment: every leaf of its file
+   list (an included object / archive entry under included groups) has, for every configured section
+   [section] and every [k] reached from it through the chain of entries above the leaf, its statement
+   for [k] among the segment's statements, and its path is recorded *)
+Lemma included_leaf_traced rt st cfg classes seg b c0 c bc chain k section sections ws s ws' :
+  should_emit rt (sg_conds seg) = true ->
+  seg_base rt cfg seg (base_path st) b -> In c0 (sg_files seg) -> In (c, bc, chain) (leaves rt b c0) ->
+  In section (alloc_sections seg ++ noload_sections seg) ->
+  reach_via cfg seg sections chain section k ->
+  add_segment rt st cfg classes seg ws = Ok (s, ws') ->
+  file_traced rt seg c bc k s ws'.
+Proof.
+  intros Hseg Hb Hc0 Hleaf Hs Hreach.
+  apply (add_segment_some rt st cfg seg (file_traced rt seg c bc k)
+           (file_traced_left rt seg c bc k) (file_traced_right rt seg c bc k)
+           (file_traced_outsec rt seg c bc k) section classes ws s ws' Hseg).
+  eapply leaf_section_has; eassumption.
+Qed.
+
+Lemma included_leaf_traced_single rt st cfg classes seg b c0 c bc chain k section sections ws s ws' :
+  seg_base rt cfg seg (base_path st) b -> In c0 (sg_files seg) -> In (c, bc, chain) (leaves rt b c0) ->
+  In section (alloc_sections seg ++ noload_sections seg) ->
+  reach_via cfg seg sections chain section k ->
+  add_single_segment rt st cfg classes seg ws = Ok (s, ws') ->
+  file_traced rt seg c bc k s ws'.
+Proof.
+  intros Hb Hc0 Hleaf Hs Hreach.
+  apply (add_single_segment_some rt st cfg seg (file_traced rt seg c bc k)
+           (file_traced_left rt seg c bc k) (file_traced_right rt seg c bc k)
+           (file_traced_outsec rt seg c bc k) (file_traced_sections rt seg c bc k) section classes ws s ws').
+  eapply leaf_section_has; eassumption.
+Qed.
+
+(* the trace in a written script: statement in [wo_script], path in [wo_paths] *)
+Definition out_traced (rt : runtime) (seg : segment) (f : file_info) (b k : string) (w : writer_out) : Prop :=
+  exists p, escape_path rt (fi_path f) = Ok p /\
+            In (trace_stmt seg f b p k) (flat_map deep_inputs (wo_script w)) /\
+            In (components (push b p)) (wo_paths w).
+
+Lemma included_leaf_normal d rt w seg b c0 c bc chain k section sections :
+  gen_normal d rt = Ok w -> In seg (doc_segments d) ->
+  (single_segment_mode (doc_settings d) = true \/ should_emit rt (sg_conds seg) = true) ->
+  seg_base rt cfg_normal seg (base_path (doc_settings d)) b ->
+  In c0 (sg_files seg) -> In (c, bc, chain) (leaves rt b c0) ->
+  In section (alloc_sections seg ++ noload_sections seg) ->
+  reach_via cfg_normal seg sections chain section k ->
+  out_traced rt seg c bc k w.
+Proof.
+  intros H Hseg Hc Hb Hc0 Hleaf Hs Hreach.
+  destruct (gen_normal_some rt d seg (file_traced rt seg c bc k)
+              (file_traced_left rt seg c bc k) (file_traced_right rt seg c bc k)
+              (file_traced_outsec rt seg c bc k) (file_traced_sections rt seg c bc k) section w H Hseg Hc)
+    as [ws' [Ew [p [Hp [H1 H2]]]]].
+  - eapply leaf_section_has; eassumption.
+  - exists p. rewrite Ew. auto.
+Qed.
+
+Lemma included_leaf_partial d rt po seg b c0 c bc chain k section sections :
+  gen_partial d rt = Ok po -> In seg (doc_segments d) -> should_emit rt (sg_conds seg) = true ->
+  seg_base rt cfg_sub_partial seg (base_path (doc_settings d)) b ->
+  In c0 (sg_files seg) -> In (c, bc, chain) (leaves rt b c0) ->
+  In section (alloc_sections seg ++ noload_sections seg) ->
+  reach_via cfg_sub_partial seg sections chain section k ->
+  exists w, In (sg_name seg, w) (po_subs po) /\ out_traced rt seg c bc k w.
+Proof.
+  intros H Hseg Hc Hb Hc0 Hleaf Hs Hreach.
+  destruct (gen_partial_some rt d seg (file_traced rt seg c bc k)
+              (file_traced_left rt seg c bc k) (file_traced_right rt seg c bc k)
+              (file_traced_outsec rt seg c bc k) (file_traced_sections rt seg c bc k) section po H Hseg Hc)
+    as [w [wsub [Hw [Ew [p [Hp [H1 H2]]]]]]].
+  - eapply leaf_section_has; eassumption.
+  - exists w. split; [exact Hw|]. exists p. rewrite Ew. auto.
+Qed.
+
+(* ---------- entries listed directly in the segment ---------- *)
+
+(* if anything was written for a configured section, the segment's directory was escaped *)
+Lemma add_segment_base rt st cfg classes seg section ws s ws' :
+  should_emit rt (sg_conds seg) = true -> In section (alloc_sections seg ++ noload_sections seg) ->
+  add_segment rt st cfg classes seg ws = Ok (s, ws') -> exists b, seg_base rt cfg seg (base_path st) b.
+Proof.
+  intros Hseg Hs.
+  apply (add_segment_some rt st cfg seg (fun _ _ => exists b, seg_base rt cfg seg (base_path st) b)
+           (fun _ _ _ _ H _ => H) (fun _ _ _ H => H) (fun _ _ _ _ _ _ _ _ H => H) section classes ws s ws' Hseg).
+  apply in_app_or in Hs.
+  destruct Hs as [Hs|Hs]; [left|right]; (split; [exact Hs|]); intros w t w' H;
+    apply emit_section_base in H; destruct H as [b [Hb _]]; exists b; exact Hb.
+Qed.
+
+Lemma here_spec_default f section : lookup section (fi_section_order f) = None -> here_spec f section section.
+Proof. intro H. unfold here_spec. destruct (fi_section_order f); [reflexivity|]. left. split; [reflexivity | exact H]. Qed.
+
+Lemma top_leaf rt b f : should_emit rt (fi_conds f) = true -> names_file f -> In (f, b, [f]) (leaves rt b f).
+Proof. intros He Hk. rewrite (leaves_one rt b f He Hk). left. reflexivity. Qed.
+
+Lemma top_reach cfg seg f section k : here_spec f section k -> reach_via cfg seg [] [f] section k.
+Proof. intro H. exists k. split; [apply Reach_here; apply in_here; exact H | reflexivity]. Qed.
+
+(* an included object / archive entry listed in an included segment has, for every configured section
+   [section] and every [k] its section_order writes there, its statement for [k] in the segment's
+   statements, and its path is recorded *)
+Lemma included_file_traced rt st cfg classes seg f k section ws s ws' :
+  should_emit rt (sg_conds seg) = true ->
+  In f (sg_files seg) -> should_emit rt (fi_conds f) = true -> names_file f ->
+  In section (alloc_sections seg ++ noload_sections seg) -> here_spec f section k ->
+  add_segment rt st cfg classes seg ws = Ok (s, ws') ->
+  exists b, seg_base rt cfg seg (base_path st) b /\ file_traced rt seg f b k s ws'.
+Proof.
+  intros Hseg Hf He Hk Hs Hh H. destruct (add_segment_base _ _ _ _ _ _ _ _ _ Hseg Hs H) as [b Hb].
+  exists b. split; [exact Hb|].
+  eapply (included_leaf_traced rt st cfg classes seg b f f b [f] k section []); try eassumption.
+  - apply top_leaf; assumption.
+  - apply top_reach. exact Hh.
+Qed.
+
+(* the two halves of the statement, with section_order at its default for [sec] *)
+Lemma included_file_emitted rt st cfg classes seg f sec ws s ws' :
+  should_emit rt (sg_conds seg) = true ->
+  In f (sg_files seg) -> should_emit rt (fi_conds f) = true -> names_file f ->
+  In sec (alloc_sections seg ++ noload_sections seg) -> lookup sec (fi_section_order f) = None ->
+  add_segment rt st cfg classes seg ws = Ok (s, ws') ->
+  exists b p, seg_base rt cfg seg (base_path st) b /\ escape_path rt (fi_path f) = Ok p /\
+    In (SInput (keeps (fi_keep f) sec) (display (push b p)) (member_of f) sec (wildcard_sections seg))
+       (flat_map deep_inputs s).
+Proof.
+  intros Hseg Hf He Hk Hs Hso H.
+  destruct (included_file_traced _ _ _ _ _ _ sec sec _ _ _ Hseg Hf He Hk Hs (here_spec_default _ _ Hso) H)
+    as [b [Hb [p [Hp [H1 _]]]]].
+  exists b, p. auto.
+Qed.
+
+Lemma included_file_dependency rt st cfg classes seg f sec ws s ws' :
+  should_emit rt (sg_conds seg) = true ->
+  In f (sg_files seg) -> should_emit rt (fi_conds f) = true -> names_file f ->
+  In sec (alloc_sections seg ++ noload_sections seg) -> lookup sec (fi_section_order f) = None ->
+  add_segment rt st cfg classes seg ws = Ok (s, ws') ->
+  exists b p, seg_base rt cfg seg (base_path st) b /\ escape_path rt (fi_path f) = Ok p /\
+    In (components (push b p)) (ws_paths ws').
+Proof.
+  intros Hseg Hf He Hk Hs Hso H.
+  destruct (included_file_traced _ _ _ _ _ _ sec sec _ _ _ Hseg Hf He Hk Hs (here_spec_default _ _ Hso) H)
+    as [b [Hb [p [Hp [_ H2]]]]].
+  exists b, p. auto.
+Qed.
+
+(* ---------- examples: the sample segment of this file ---------- *)
+
+(* the hypotheses of included_file_emitted / included_file_dependency are met by the first entry of the
+   sample segment, section .data ... *)
+Lemma ex06_included_hyps :
+  let seg := ex06_seg ex06_files in
+  let f := ex06_obj "{dir}/a.o" no_conds in
+  should_emit ex06_rt (sg_conds seg) = true /\ In f (sg_files seg) /\
+  should_emit ex06_rt (fi_conds f) = true /\ names_file f /\
+  In ".data" (alloc_sections seg ++ noload_sections seg) /\ lookup ".data" (fi_section_order f) = None /\
+  is_ok (add_segment ex06_rt ex06_settings cfg_normal [] seg ws0) = true.
+Proof. vm_compute. repeat split; auto. Qed.
+
+(* ... those of included_leaf_normal by the entry b.o inside the group "lib", for the sub-group section
+   .text.hot reached from .text: the group passes .text on, the object expands the sub-group ... *)
+Definition ex06_lib : file_info :=
+  ex06_group "lib" [ex06_obj "b.o" no_conds; ex06_obj "{missing}/c.o" ex06_excluded; ex06_obj "d.o" no_conds]
+             no_conds.
+
+Lemma ex06_leaf_hyps :
+  let seg := ex06_seg ex06_files in
+  let b := push "build/us" "" in
+  In seg (doc_segments (ex06_doc ex06_files)) /\ should_emit ex06_rt (sg_conds seg) = true /\
+  seg_base ex06_rt cfg_normal seg (base_path (doc_settings (ex06_doc ex06_files))) b /\
+  In ex06_lib (sg_files seg) /\
+  In (ex06_obj "b.o" no_conds, push b "lib", [ex06_lib; ex06_obj "b.o" no_conds]) (leaves ex06_rt b ex06_lib) /\
+  In ".text" (alloc_sections seg ++ noload_sections seg) /\
+  reach_via cfg_normal seg [] [ex06_lib; ex06_obj "b.o" no_conds] ".text" ".text.hot".
+Proof.
+  cbv zeta. split; [left; reflexivity|]. split; [reflexivity|]. split.
+  { exists "build/us". split; [reflexivity|]. exists "". split; reflexivity. }
+  split; [right; right; left; reflexivity|]. split; [left; reflexivity|]. split; [left; reflexivity|].
+  exists ".text". split; [apply Reach_here; left; reflexivity|].
+  exists ".text.hot". split; [|reflexivity].
+  apply (Reach_member _ _ _ _ ".text" ".text" ".text.hot" ".text.hot").
+  - left; reflexivity.
+  - left; reflexivity.
+  - apply Reach_here. left; reflexivity.
+Qed.
+
+(* ... and these are the traces: the statements in the script, the paths in the dependency list; the
+   same in the per-segment script of a partial build *)
+Lemma ex06_included_trace :
+  match gen_normal (ex06_doc ex06_files) ex06_rt with
+  | Ok w => mem_str "build/us/src/a.o(.data)" (script_inputs (wo_script w)) = true /\
+            mem_str "build/us/lib/b.o(.text.hot)" (script_inputs (wo_script w)) = true /\
+            map (join "/") (wo_paths w) = ["build/us/src/a.o"; "build/us/lib/b.o"; "build/us/lib/d.o"]
+  | Err _ => False
+  end /\
+  match gen_partial (ex06_doc ex06_files) ex06_rt with
+  | Ok p => map (fun s => (fst s, mem_str "build/us/src/a.o(.data)" (script_inputs (wo_script (snd s))),
+                           mem_str "build/us/lib/b.o(.text.hot)" (script_inputs (wo_script (snd s))),
+                           map (join "/") (wo_paths (snd s)))) (po_subs p) =
+            [("main", true, true, ["build/us/src/a.o"; "build/us/lib/b.o"; "build/us/lib/d.o"])]
+  | Err _ => False
+  end.
+Proof. vm_compute. repeat split; reflexivity. Qed.
